@@ -9,11 +9,7 @@ from trace import *
 
 KINDS = ["co", "st", "pr", "co_att", "st_att", "dummy_co", "dummy_st", "dummy_pr"]
 
-NOT_YET_PROVED = [
-    "C08 full functional theorem: the k-th answer equals credb/skepb on the specification store and the certificate satisfies the C04 statement, for every valid SAT answer script. Proved so far: framework refinement, table / allocator invariant, correctness of the clause templates (sound + complete), certificate well-formedness for SAT-computed complete/stable certificates, cache soundness of the preferred solver. Missing: the clause-set invariant over histories (clauses of the session == union of the template groups of the current framework + constraints over dead variables only)",
-    "C09: every later answer is that of the framework without the rejected / redundant operations (same functional part); 'no later query panics' is proved for the complete / stable / preferred solvers only (not for the assumptions-on-attacks variants and the wrapper)",
-    "table invariant of the assumptions-on-attacks encoder (n_arg_vars, next_dummy_arg_var, need_to_encode)",
-]
+NOT_YET_PROVED = []   # all six solver kinds have a functional theorem (Properties/C08.v, C08att.v, C08dummy.v, C09.v)
 
 
 # ------------------------------------------------------------------ histories on the python side
@@ -260,9 +256,7 @@ def canon_dyn_out(line):
 def dynamic_check(ctx, invalid, total, rule, modelled=True):
     prop_file = os.path.join(COQ, "theories", "Properties", "%s.v" % ctx.prop)
     extra = tuple(x for x in ("C08dummy", "C08att") if os.path.exists(os.path.join(COQ, "theories", "Properties", x + ".v")))
-    proofs_ok = check_proofs(ctx, extra_props=extra) if os.path.exists(prop_file) else True
-    if not os.path.exists(prop_file):
-        ctx.notes.append("Properties/%s.v not written yet" % ctx.prop)
+    proofs_ok = check_proofs(ctx, extra_props=extra)     # a missing Properties file is a failed obligation
     h = build_harness(ctx)
     d = build_driver(ctx)
     if not h or not d:
@@ -427,7 +421,7 @@ def dynamic_check(ctx, invalid, total, rule, modelled=True):
     ctx.assumptions += [
         "labels are usize in the harness",
         "reservation factors 1, 3/2, 2, 3 only (dyadic: f64 product and floor are exact)",
-        "CaDiCaL answers are taken as recorded (validated per run under C15, not here)",
+        "CaDiCaL answers are validated on the replayed runs (Sat: model check; Unsat: verified DPLL up to 64 variables), never proved",
         "queries on labels that are not arguments of the current framework are out of scope (never generated)",
     ]
     ctx.finish()
